@@ -54,12 +54,7 @@ func ExtractInstanceTags(m []byte) (ours, theirs uint32, ok bool) {
 
 		return receiverInstanceTag, senderInstanceTag, true
 	} else if bytes.HasPrefix(m, []byte("?OTR|")) {
-		if len(m) < 23 {
-			return 0, 0, false
-		}
-
-		header := m[:23]
-		headerPart := bytes.Split(header, fragmentSeparator)[0]
+		headerPart := bytes.Split(m, fragmentSeparator)[0]
 		itagParts := bytes.Split(headerPart, fragmentItagsSeparator)
 
 		if len(itagParts) < 3 {
